@@ -357,7 +357,7 @@ static int64_t fillResult(Hist &h, DnsResult &res, uint32_t token, const std::st
   res.questions.emplace_back("tok-" + std::to_string(token), DnsType::A, DnsClass::IN);
   int64_t mn = -1;
   auto note = [&](uint32_t ttl, const char *where) { if (mn < 0 || int64_t(ttl) < mn) { mn = ttl; why = where; } };
-  int lists = int(h.rng.below(maxLists + 1));
+  int lists = h.rng.chance(0.1) ? 0 : 1 + int(h.rng.below(maxLists));
   for (int l = 0; l < lists; l++)
   {
     int which = int(h.rng.below(12));
